@@ -304,6 +304,14 @@ def gen_minada(rng):
                      rand_bundle(rng, total=rng.choice([0, 0, 1, 2, 5, 20, 60]))],
              post_alonzo=rng.random() < 0.5, entry=rng.choice(['post', 'post', 'dispatch']))
     with_pp(rng, c)
+    if c['amount'][1] and rng.random() < 0.3:
+        # placeholders: zero quantities and policies whose entries are all zero are legal in an output object (dropped on the
+        # wire); the utility must hand the object back with every one of them in place
+        for e in c['amount'][1]:
+            if rng.random() < 0.5:
+                for nq in e[1]:
+                    if rng.random() < 0.6:
+                        nq[1] = 0
     r = rng.random()
     if r < 0.2:
         c['datum'] = ['hash', bytes(rng.getrandbits(8) for _ in range(32)).hex()]
@@ -332,7 +340,7 @@ def gen_ser(rng):
             v[0] = rng.choice([-1, -1, -1000000, -2 ** 64])
     elif r < 0.8 and vals[0][1]:               # zero quantity: legal (dropped on the wire)
         vals[0][1][0][1][0][1] = 0
-    return dict(kind='ser', addr=rng.choice(ADDRS), level=level, values=vals)
+    return dict(kind='ser', addr=rng.choice(ADDRS), level=level, values=vals, seq=rng.random() < 0.4)
 
 
 def gen_build_base(rng):
